@@ -23,14 +23,38 @@ def run(rep):
     C.need_tools(C.ASTDUMP)
     wd = C.workdir("C10")
     src = os.path.join(C.DRIVERS, "c10_driver.cpp")
-    d = C.astdump(src, os.path.join(wd, "c10.json"), ["^boost::gil::image::"], std=os.environ.get("VERIF_C10_STD"))
-    if d.get("errors"):
-        raise C.AnalysisBroken("c10 driver has compile errors")
-    fns = d["functions"]
-    rep.units.append("drivers/c10_driver.cpp (%d instantiated image members)" % len(fns))
-    by_cls = {}
-    for f in fns:
-        by_cls.setdefault(f.get("cls"), []).append(f)
+    # the members are analysed as instantiated under both language levels: image::swap exchanges the allocators unconditionally before C++17
+    # and only for propagate_on_container_swap allocators from C++17 on (`if constexpr`), which changes what every copy-and-swap member does
+    stds = [os.environ["VERIF_C10_STD"]] if os.environ.get("VERIF_C10_STD") else ["c++14", "c++17"]
+    per_std = []
+    for sd in stds:
+        d = C.astdump(src, os.path.join(wd, "c10_%s.json" % sd.replace("+", "p")), ["^boost::gil::image::"], std=sd)
+        if d.get("errors"):
+            raise C.AnalysisBroken("c10 driver has compile errors (-std=%s)" % sd)
+        rep.rule("I0 every public member of image<> instantiates (a) for a non-pixel Regular element type with std::allocator and with a stateful non-propagating allocator "
+                 "(the class comment allows such elements), (b) for construction from flipped / subsampled / transposed views of both organisations and for a bit-aligned image; "
+                 "uninstantiated member templates are not even compiled by the test suite")
+        extra = []
+        for part, macro, defs, example in (
+                ("element configurations", "VERIF_C10_ELEM", [x for x in C.BASE_DEFS if x != "-DBOOST_GIL_USE_CONCEPT_CHECK"],
+                 "image<E, false, A> a, b; a = std::move(b);  with a non-pixel element E and a stateful allocator A"),
+                ("view constructions", "VERIF_C10_VIEWS", list(C.BASE_DEFS), "rgb8_planar_image_t b(flipped_left_right_view(view(a)));")):
+            rep.obligations += 1
+            try:
+                de = C.astdump(src, os.path.join(wd, "c10_%s_%s.json" % (macro[-4:].lower(), sd.replace("+", "p"))), ["^boost::gil::image::"], std=sd, defs=defs + ["-D" + macro])
+                rep.discharged += 1
+                extra += [f for f in de["functions"] if "verif_elem" in (f.get("cls") or "") or "bit_aligned" in (f.get("cls") or "")]
+                rep.count("part:" + part)
+            except C.AnalysisBroken as e:
+                m = re.search(r"'file': '[^']*?(include/boost/gil/[^']*)', 'line': (\d+), 'msg': (.*)\}$", str(e), re.S)
+                if not m:
+                    raise
+                if not any(v["key"] == "I0:%s:%s" % (part, m.group(1)) for v in rep.violations):
+                    rep.violations.append({"rule": "I0-instantiates", "key": "I0:%s:%s" % (part, m.group(1)), "where": "%s:%s" % (m.group(1), m.group(2)),
+                                           "detail": {"std": sd, "error": m.group(3)[:600], "example": example}})
+        fns = d["functions"] + extra
+        per_std.append((sd, fns))
+        rep.units.append("drivers/c10_driver.cpp -std=%s (%d instantiated image members)" % (sd, len(fns)))
     rep.trusted += ["clang 14 front end (template instantiation, overload resolution)", "axioms: allocate -> owned or throws; deallocate frees; "
                     "default_construct/uninitialized_fill/uninitialized_copy_pixels: raw -> constructed or throw leaving raw; destruct_pixels: constructed -> raw; "
                     "view assignment, boost::exchange and std::swap of scalars do not throw"]
@@ -41,15 +65,15 @@ def run(rep):
 
     def report(rule, root, construct, detail):
         cfgname = cfg
-        key = "%s:%s" % (root, construct_key(construct))
+        key = pixel_param("%s:%s" % (root, construct_key(construct)))     # the element type as the member's signature spells it
         v = viols.setdefault((rule, key), {"where": root, "detail": construct, "path": detail, "count": 0, "configs": set()})
         v["count"] += 1
         v["configs"].add(cfgname)
     total_paths = 0
-    for cls, members in sorted(by_cls.items(), key=lambda kv: str(kv[0])):
+    for sd, fns, cls, members in [(sd, fns, cls, members) for sd, fns in per_std for cls, members in sorted(group_by_cls(fns).items(), key=lambda kv: str(kv[0]))]:
         if cls is None:
             continue
-        cfg = config_name(cls)
+        cfg = config_name(cls) + ("" if sd == "c++14" else "/" + sd)
         always_equal = "std::allocator" in cls or "salloc" not in cls
         it = imgstate.Interp(fns, always_equal, report)
         for f in members:
@@ -65,7 +89,7 @@ def run(rep):
                 continue
             total_paths += n
             rep.obligations += 1
-            had = [k for k, v in viols.items() if k[1].startswith(imgstate.fkey(f) + ":") and cfg in v["configs"]]
+            had = [k for k, v in viols.items() if k[1].startswith(pixel_param(imgstate.fkey(f)) + ":") and cfg in v["configs"]]
             if not had:
                 rep.discharged += 1
                 if len(rep.samples) < 12:
@@ -77,19 +101,54 @@ def run(rep):
         rep.obligations += 0
         rep.violations.append({"rule": rule, "key": key, "where": "include/boost/gil/image.hpp " + v["where"], "detail": {"problem": v["detail"], "example_path": v["path"][-600:], "paths": v["count"], "configurations": sorted(v["configs"])}})
     rollback_rules(rep)
-    rep.floor("members", 100)
+    view_established(rep, per_std[0][1])
+    raw_construction(rep, wd, src)
+    rep.floor("members", 100 * len(stds))
     rep.floor("config:interleaved/sticky", 20)
+    if not any(v["rule"] == "I0-instantiates" for v in rep.violations):
+        rep.floor("config:interleaved/sticky/elem", 20)
+    if "c++17" in stds:
+        rep.floor("config:interleaved/sticky/c++17", 20)
+
+
+def pixel_param(k):
+    """spell the element type of a member signature as the template does (`const Pixel &`), whatever the configuration instantiates it with"""
+    k = k.replace("const verif_elem &", "const Pixel &")
+    while True:
+        i = k.find("const bit_aligned_pixel_reference<")
+        if i < 0:
+            return k
+        j = k.index("<", i)
+        depth = 0
+        for n in range(j, len(k)):
+            depth += k[n] == "<"
+            depth -= k[n] == ">"
+            if depth == 0:
+                break
+        rest = k[n + 1:]
+        k = k[:i] + "const Pixel" + rest
+
+
+def group_by_cls(fns):
+    by_cls = {}
+    for f in fns:
+        by_cls.setdefault(f.get("cls"), []).append(f)
+    return by_cls
 
 
 def config_name(cls):
+    if "bit_aligned_pixel_reference" in cls:
+        return "bit-aligned/std"
     planar = "planar" if re.search(r", true(,|>)", cls) else "interleaved"
     if "salloc<unsigned char, true" in cls:
         a = "propagating"
+    elif "salloc<unsigned char, false, false, true>" in cls:
+        a = "sticky+pocca"
     elif "salloc<unsigned char, false" in cls:
         a = "sticky"
     else:
         a = "std"
-    if "vf::elem" in cls:
+    if "verif_elem" in cls:
         a += "/elem"
     return planar + "/" + a
 
@@ -191,3 +250,96 @@ def rollback_rules(rep):
         else:
             rep.violation("I7-rollback", key, where, {"problem": prob + ": after a throwing construction some constructed elements are not destroyed and some unconstructed ones are"})
     rep.floor("obligations:I7", 6)
+
+
+def view_established(rep, fns):
+    """I8: the dimensions of an image are those of _view. allocate_ (both organisations) is what every constructor and every reallocating recreate goes through:
+    it must give _view the requested dimensions on every path that returns normally -- also when no byte has to be allocated (0 x h, w x 0), otherwise
+    image(0,3) is 0x0 while recreate(0,3) is 0x3, and copying the latter runs uninitialized_copy_pixels on views of different dimensions."""
+    from .ast import rules as R
+    rep.rule("I8 image::allocate_(dims, organisation): every normal exit is preceded by the assignment _view = view_t(dims, ...) "
+             "(no return before it, not nested under a condition); an image without bytes still has the dimensions it was given")
+    seen = set()
+    for f in fns:
+        if not f["name"].endswith("image::allocate_"):
+            continue
+        org = "planar" if re.search(r", true(,|>)", f.get("cls") or "") else "interleaved"
+        if org in seen:
+            continue
+        seen.add(org)
+        rep.count("obligations:I8")
+        rep.obligations += 1
+        g = R.canonize(f)
+        top = g["body"].get("c") or g["body"].get("stmts") or []
+        idx = None
+        for i, st in enumerate(top):
+            if R.find(st, lambda x: (x.get("k") == "Assign" or (x.get("k") == "Call" and x.get("op") == "=")) and R.key(x.get("l") or x["args"][0]) in ("_view", "this._view")):
+                if st.get("k") in ("If", "For", "While", "Switch"):
+                    continue            # conditional: does not establish the view on every path
+                idx = i
+                break
+        early = [] if idx is None else [r for st in top[:idx] for r, _ in R.find(st, lambda x: x.get("k") == "Return")]
+        dims_ok = idx is not None and "$0" in R.key(top[idx])
+        key = "I8:image::allocate_:%s" % org
+        if idx is not None and not early and dims_ok:
+            rep.discharged += 1
+            rep.samples.append({"member": "allocate_ (%s)" % org, "result": "_view assigned from the dimensions parameter on every normal path"}) if len(rep.samples) < 16 else None
+        else:
+            rep.violations.append({"rule": "I8-view-established", "key": key, "where": R.fn_where(f),
+                                   "detail": {"unconditional _view assignment": idx is not None, "returns before it": ["line %s" % r.get("line") for r in early],
+                                              "example": "rgb8_image_t a(0, 3): a.height() == 0; b.recreate(0, 3); rgb8_image_t c(b) asserts view1.dimensions() == view2.dimensions()"}})
+    rep.floor("obligations:I8", 2)
+
+
+def innermost_iterator(t):
+    """strip GIL's iterator adaptors: what the adaptor's operator* finally dereferences"""
+    t = t.strip()
+    for _ in range(6):
+        m = re.match(r"(?:const )?boost::gil::(memory_based_step_iterator|dereference_iterator_adaptor|iterator_from_2d|detail::step_iterator_adaptor)<(.*)>$", t)
+        if not m:
+            break
+        inner = m.group(2)
+        depth = 0
+        for n, ch in enumerate(inner):          # first template argument
+            depth += ch == "<"
+            depth -= ch == ">"
+            if ch == "," and depth == 0:
+                inner = inner[:n]
+                break
+        t = inner.strip()
+    return t
+
+
+def raw_construction(rep, wd, src):
+    """I9: the standard uninitialized algorithms construct with placement new at std::addressof(*it). That stores a pixel only if *it is an lvalue of the
+    pixel: for an iterator that hands out a proxy object (bit_aligned_pixel_iterator, planar_pixel_iterator) the placement new builds a copy of the proxy on top of
+    the temporary and nothing reaches the image -- bit-aligned image(w,h,fill) stayed unwritten."""
+    from .ast import rules as R
+    rep.rule("I9 every call GIL makes to libstdc++'s std::uninitialized_fill / std::uninitialized_copy (callee defined outside boost/gil, i.e. the placement-new one) has a destination "
+             "iterator that is a pointer after stripping GIL's iterator adaptors; proxy iterators must be routed to an overload GIL provides (std::copy / std::fill through the proxy)")
+    d = C.astdump(src, os.path.join(wd, "c10_raw.json"), ["^boost::gil::detail::uninitialized_(fill|copy)_aux$"], defs=list(C.BASE_DEFS) + ["-DVERIF_C10_VIEWS"])
+    seen = {}
+    for f in d["functions"]:
+        for x, _ in R.find(f["body"], lambda x: x.get("k") == "Call" and re.fullmatch(r"std::uninitialized_(fill|copy)(_n)?", (x.get("callee") or {}).get("name") or "")):
+            cal = x["callee"]
+            dst = cal["ptypes"][0] if "fill" in cal["name"] else cal["ptypes"][2]
+            own = "include/boost/gil/" in (cal.get("file") or "")
+            inner = innermost_iterator(dst)
+            kind = "pointer" if inner.endswith("*") else ("proxy" if re.match(r"(const )?boost::gil::(bit_aligned_pixel_iterator|planar_pixel_iterator)<", inner) else "unknown")
+            k = (cal["name"], own, kind, re.sub(r"<.*", "", inner))
+            if k in seen:
+                continue
+            seen[k] = (f, dst)
+    for (name, own, kind, head), (f, dst) in sorted(seen.items(), key=lambda kv: str(kv[0])):
+        rep.count("obligations:I9")
+        rep.obligations += 1
+        key = "I9:%s:%s" % (name, head if kind != "pointer" else "pointer")
+        if own or kind == "pointer":
+            rep.discharged += 1
+        elif kind == "proxy":
+            rep.violations.append({"rule": "I9-raw-construction", "key": key, "where": R.fn_where(f),
+                                   "detail": {"callee": name + " (libstdc++, placement new at addressof(*it))", "destination iterator": dst[:300],
+                                              "example": "bit_aligned_image3_type<1,2,3,rgb_layout_t>::type g(3, 1, fill): every pixel of g is whatever the allocator returned, not fill"}})
+        else:
+            rep.incon("I9-raw-construction", key, {"where": R.fn_where(f), "destination iterator": dst[:300], "why": "not a pointer and not a known proxy iterator"})
+    rep.floor("obligations:I9", 3)
